@@ -187,6 +187,7 @@ func genC04(t *rapid.T) *Bundle {
 	lnames := rapid.Permutation([]string{"a", "z", "m", "k"}).Draw(t, "lnames")[:npairs]
 	rnames := rapid.Permutation([]string{"m", "b", "a", "c"}).Draw(t, "rnames")[:npairs]
 	tricky := rapid.IntRange(0, 6).Draw(t, "tricky") == 0
+	bigNums := rapid.IntRange(0, 5).Draw(t, "big_nums") == 0
 	var pairs []c04Cmp
 	for i := 0; i < npairs; i++ {
 		pairs = append(pairs, c04Cmp{L: lnames[i], R: rnames[i], IsStr: rapid.Bool().Draw(t, "is_str")})
@@ -202,6 +203,8 @@ func genC04(t *rapid.T) *Bundle {
 			for pi, nm := range names {
 				if pairs[pi].IsStr {
 					row[nm] = rapid.SampledFrom(strDom).Draw(t, side+"s")
+				} else if bigNums {
+					row[nm] = float64(rapid.SampledFrom([]int{1, 2, 1000000, 2000000, 12345678}).Draw(t, side+"n"))
 				} else {
 					row[nm] = float64(rapid.IntRange(1, 3).Draw(t, side+"n"))
 				}
@@ -226,7 +229,15 @@ func genC04(t *rapid.T) *Bundle {
 	}
 	sim := drawSim(t, "")
 	c := oneClientCase("C04", sim, doc, casefmt.Op{Doc: 0, Vars: -1, Query: ""})
-	c.NativeInts = rapid.Bool().Draw(t, "native_ints")
+	// the two tables may come from different sources: one holding Go ints, the other float64
+	switch rapid.IntRange(0, 3).Draw(t, "native_ints") {
+	case 0:
+		c.NativeInts = true
+	case 1:
+		c.NativeIntKeys = []string{"t"}
+	case 2:
+		c.NativeIntKeys = []string{"u"}
+	}
 	tags := []string{"type:" + typ}
 	if exp.Equi {
 		tags = append(tags, "equi")
